@@ -6,7 +6,8 @@
     scheduler, compared event by event with this model on every run.
     combine and merge: proved over all schedules (Inv_threads_combine.v, Inv_threads_merge.v).
     [at_most_one_err n fins] is the property's own quantifier ("at most one member failing"). *)
-From CB Require Import Threads ThreadSpec ThreadsFine Inv_threads_combine Inv_threads_merge Inv_threads_fine.
+From CB Require Import Threads ThreadSpec ThreadsFine Inv_threads_combine Inv_threads_merge Inv_threads_fine
+  Inv_threads_combine_fine.
 
 Theorem C18_combine_no_panic (n : nat) (qs : nat -> list val) (fins : nat -> final) :
   1 <= n -> forall s, cb_reach n qs fins s ->
@@ -195,3 +196,28 @@ Theorem C18_merge_fine_unfixed_refuted :
   In TvAfterTerminal (merge_check_fine 2 h10_qs h10_fins (rev (mfs_tr s))).
 Proof. exact fine_unfixed_refuted. Qed.
 Print Assumptions C18_merge_fine_unfixed_refuted.
+
+(** ** combine! at the granularity of every shared-state access: the member's cell store before
+    [n_start.fetch_sub] is one more step that nothing else can see (the stuttering extension of
+    ThreadsFine.v, what the driver runs for a combine script with free=1).  Whatever holds of every state
+    reachable in the model of Threads.v holds of every state reachable at the finer granularity. *)
+
+Theorem C18_combine_fine_transfer n qs fins (P : cb_state -> Prop) :
+  (forall s, cb_reach n qs fins s -> P s) -> forall s, cbf_reach n qs fins s -> P (st_base s).
+Proof. exact (@combine_fine_transfer n qs fins P). Qed.
+Print Assumptions C18_combine_fine_transfer.
+
+Theorem C18_combine_fine_tuples n qs fins : 1 <= n -> forall s, cbf_reach n qs fins s ->
+  forall t x, In (t, TBegin (DD x)) (cbs_tr (st_base s)) ->
+  exists l, x = VT l /\ length l = n /\ tuple_ok qs 0 l = true.
+Proof. exact (@combine_fine_tuples n qs fins). Qed.
+Print Assumptions C18_combine_fine_tuples.
+
+Theorem C18_combine_fine_driver_run n qs fins nth sch fuel : 1 <= n ->
+  let s := run_full (stut_step (cb_step true n)) (stut_finished cb_finished) nth sch fuel
+             (stut_init (cb_init n qs fins)) in
+  cbs_panicked (st_base s) = false /\
+  ((forall t, t < n -> stut_finished cb_finished s t = true) ->
+   combine_check n qs fins (rev (cbs_tr (st_base s))) = []).
+Proof. exact (@combine_fine_driver_run n qs fins nth sch fuel). Qed.
+Print Assumptions C18_combine_fine_driver_run.
